@@ -338,9 +338,6 @@ theorem blockLoop_log {src : List Function} {st st1 : AsmState} {be bx be1 bx1 :
     · cases h
     · cases h
 
-/-- all instruction graphs of all results -/
-def allInstrs (tb : List (Nat × BTR)) : List Function := tb.flatMap (fun p => p.2.instrs)
-
 theorem resultsLoop_log {src : List Function} {st st1 : AsmState} (tb : List (Nat × BTR))
     (h : resultsLoop st tb = .ok st1) (hl : LogOk src st) (hs : ∀ g ∈ allInstrs tb, g ∈ src) :
     LogOk src st1 ∧
